@@ -3,6 +3,7 @@ package multidb
 import (
 	"errors"
 	"fmt"
+	"sort"
 	"strings"
 
 	"github.com/Fantom-foundation/lachesis-base/kvdb"
@@ -27,7 +28,15 @@ func NewProducer(producers map[TypeName]kvdb.FullDBProducer, routingTable map[st
 	routingFmt := make([]scanfRoute, 0, len(routingTable))
 	exactRoutingTable := make(map[string]Route, len(routingTable))
 	used := make(map[TypeName]kvdb.FullDBProducer)
-	for req, route := range routingTable {
+	// pattern routes are tried in the order of routingFmt: build it in a fixed (sorted) order of the requests,
+	// not in the random iteration order of the map, so that overlapping patterns are resolved the same way every time
+	reqs := make([]string, 0, len(routingTable))
+	for req := range routingTable {
+		reqs = append(reqs, req)
+	}
+	sort.Strings(reqs)
+	for _, req := range reqs {
+		route := routingTable[req]
 		used[route.Type] = producers[route.Type]
 		if !strings.ContainsRune(req, '%') && !strings.ContainsRune(route.Name, '%') {
 			exactRoutingTable[req] = route
